@@ -410,39 +410,70 @@ Proof.
     rewrite Nat2Z.id. reflexivity.
 Qed.
 
-(* ---------- HuffmanTable.Build does not panic on a valid table ---------- *)
-(* number of codes before a level <= index of the first code of the level *)
-Lemma lookup_ok_len_true : forall cnt l p nvals, 0 <= p -> 0 <= l < 8 ->
-  p + Z.of_nat cnt <= nvals -> p + Z.of_nat cnt <= 2 ^ (l + 1) ->
-  lookup_ok_len cnt l p nvals = true.
+(* ---------- HuffmanTable.Build: validation and the (dead) lookup-table fill ---------- *)
+Lemma build_valid_mono : forall bits l total next T, build_valid bits l total next = Some T -> total <= T.
 Proof.
-  induction cnt; intros l p nvals Hp Hl Hn Hk; [reflexivity|].
+  induction bits as [|b bs IH]; intros l total next T H; cbn [build_valid] in H.
+  - injection H as H. lia.
+  - destruct (Z.ltb_spec b 0); [discriminate|]. destruct (2 ^ (l + 1) <? next + b); [discriminate|].
+    apply IH in H. lia.
+Qed.
+
+Lemma lookup_ok_len_true : forall cnt l p canonical nvals, 0 <= canonical -> 0 <= l < 8 ->
+  p + Z.of_nat cnt <= nvals -> canonical + Z.of_nat cnt <= 2 ^ (l + 1) ->
+  lookup_ok_len cnt l p canonical nvals = true.
+Proof.
+  induction cnt; intros l p canonical nvals Hc Hl Hn Hk; [reflexivity|].
   cbn [lookup_ok_len]. rewrite Nat2Z.inj_succ in *.
   destruct (Z.ltb_spec p nvals); [|lia]. cbn [andb].
   assert (E : 256 = 2 ^ (l + 1) * 2 ^ (7 - l)) by (rewrite <- Z.pow_add_r by lia; replace (l + 1 + (7 - l)) with 8 by lia; reflexivity).
   assert (Hpos : 0 < 2 ^ (7 - l)) by (apply Z.pow_pos_nonneg; lia).
-  destruct (Z.leb_spec ((p + 1) * 2 ^ (7 - l)) 256) as [_|Hbad].
+  destruct (Z.leb_spec ((canonical + 1) * 2 ^ (7 - l)) 256) as [_|Hbad].
   - cbn [andb]. apply IHcnt; lia.
-  - exfalso. rewrite E in Hbad. assert (p + 1 <= 2 ^ (l + 1)) by lia. nia.
+  - exfalso. rewrite E in Hbad. assert (canonical + 1 <= 2 ^ (l + 1)) by lia. nia.
 Qed.
 
-Lemma lookup_ok_fits : forall bits l p first nvals, fits bits (l + 1) first -> 0 <= p <= first -> 0 <= l ->
-  p + zsum bits <= nvals -> lookup_ok bits l p nvals = true.
+(* after a successful validation no index of the lookup fill is out of range *)
+Lemma lookup_ok_valid : forall bits l total next T nvals, 0 <= l -> 0 <= next ->
+  build_valid bits l total next = Some T -> T <= nvals ->
+  lookup_ok bits l total next nvals = true.
 Proof.
-  induction bits as [|b bs IH]; intros l p first nvals Hf Hp Hl Hn; [reflexivity|].
-  cbn [lookup_ok fits zsum fold_right] in *. destruct Hf as (Hb & Hfit & Hf').
+  induction bits as [|b bs IH]; intros l total next T nvals Hl Hn Hv HT; [reflexivity|].
+  cbn [build_valid lookup_ok] in *.
+  destruct (Z.ltb_spec b 0); [discriminate|].
+  destruct (Z.ltb_spec (2 ^ (l + 1)) (next + b)); [discriminate|].
   destruct (Z.leb_spec 8 l); [reflexivity|].
-  assert (Hs : 0 <= zsum bs).
-  { pose proof (fits_nonneg _ _ _ Hf') as Hnn. clear -Hnn. induction Hnn; cbn [zsum fold_right]; [lia|].
-    unfold zsum in *. lia. }
-  unfold zsum in *.
-  rewrite lookup_ok_len_true; try lia. cbn [andb].
-  rewrite Z.max_r by lia.
-  apply (IH (l + 1) (p + b) (2 * (first + b))); try lia.
-  replace (l + 1 + 1) with (l + 1 + 1) by lia. exact Hf'.
+  pose proof (build_valid_mono _ _ _ _ _ Hv) as Hm.
+  rewrite lookup_ok_len_true by lia. cbn [andb]. rewrite Z.max_r by lia.
+  apply (IH (l + 1) (total + b) (2 * (next + b)) T); try lia. exact Hv.
 Qed.
 
-Lemma lookup_ok_facts : forall bits vals, table_facts bits vals -> lookup_ok bits 0 0 (zlen vals) = true.
+(* HuffmanTable.Build never panics, whatever the table (it validates first) *)
+Theorem build_table_never_panics : forall bits vals, build_table bits vals <> Panic.
 Proof.
-  intros bits vals [Fl Fb Fs Fv Fn Ff]. apply (lookup_ok_fits bits 0 0 0); try lia. exact Ff.
+  intros bits vals. unfold build_table, table_valid.
+  destruct (build_valid bits 0 0 0) as [T|] eqn:E; [|cbn; discriminate].
+  destruct (Z.leb_spec T (zlen vals)); cbn [negb]; [|discriminate].
+  rewrite (lookup_ok_valid bits 0 0 0 T (zlen vals)) by (lia || assumption). discriminate.
+Qed.
+
+Lemma build_valid_fits : forall bits l total next, fits bits (l + 1) next ->
+  build_valid bits l total next = Some (total + zsum bits).
+Proof.
+  induction bits as [|b bs IH]; intros l total next Hf; cbn [build_valid zsum fold_right].
+  - f_equal. lia.
+  - cbn [fits] in Hf. destruct Hf as (Hb & Hfit & Hf').
+    destruct (Z.ltb_spec b 0); [lia|]. destruct (Z.ltb_spec (2 ^ (l + 1)) (next + b)); [lia|].
+    rewrite (IH (l + 1) (total + b) (2 * (next + b)) Hf'). f_equal. unfold zsum. lia.
+Qed.
+
+(* a valid table passes the validation: Build returns the table *)
+Lemma build_table_facts : forall bits vals, table_facts bits vals ->
+  build_table bits vals = Ok (ht_of bits vals).
+Proof.
+  intros bits vals [Fl Fb Fs Fv Fn Ff].
+  pose proof (build_table_never_panics bits vals) as Hnp. unfold build_table, table_valid in *.
+  rewrite (build_valid_fits bits 0 0 0 Ff) in *. rewrite Fs in *. cbn [Z.add] in *.
+  rewrite Z.leb_refl in *. cbn [negb] in *.
+  destruct (lookup_ok bits 0 0 0 (zlen vals)); [reflexivity | contradiction].
 Qed.
